@@ -394,7 +394,182 @@ theorem fire_gsol (h : SCBase G) (f : FirePre G k p z ow) (x : List Bool) :
             rw [f.prod]; exact fun e => hwow e.symm
           · rw [if_neg hjp] at this; exact this
 
+theorem fire_wire_all (G : Graph) (k p w : Nat) : (G.fire k p).wire w = G.wire w := by
+  by_cases hw : w < G.wires.size
+  · exact fire_wire G k p w hw
+  · by_cases hw2 : w = G.wires.size
+    · subst hw2
+      rw [fire_wire_fresh]
+      simp [wire, Array.getD]
+      rfl
+    · simp only [wire, Array.getD, fire_wsize]
+      have h1 : ¬ w < G.wires.size + 1 := by omega
+      simp [hw, h1]
+
+theorem rdL_congr (w : Nat) : ∀ (l1 l2 : List BGate), l1.length = l2.length →
+    (∀ i, i < l1.length → (l1.getD i default).dead = (l2.getD i default).dead ∧
+      (l1.getD i default).op = (l2.getD i default).op ∧ (l1.getD i default).a = (l2.getD i default).a ∧
+      (l1.getD i default).b = (l2.getD i default).b) → rdL w l1 = rdL w l2 := by
+  intro l1
+  induction l1 with
+  | nil => intro l2 hl _; cases l2 with | nil => rfl | cons _ _ => simp at hl
+  | cons g t ih =>
+    intro l2 hl hf
+    cases l2 with
+    | nil => simp at hl
+    | cons g2 t2 =>
+      have h0 := hf 0 (by simp)
+      simp only [List.getD_cons_zero] at h0
+      have := ih t2 (by simpa using hl) (fun i hi => by simpa using hf (i + 1) (by simp; omega))
+      simp only [rdL, slots, h0.1, h0.2.1, h0.2.2.1, h0.2.2.2, this]
+
+theorem fire_readers (h : SCBase G) (f : FirePre G k p z ow) (w : Nat) :
+    (G.fire k p).readers w = G.readers w := by
+  unfold readers
+  apply rdL_congr
+  · simp [fire_gsize]
+  · intro i hi
+    rw [← gate_eq_getD, ← gate_eq_getD]
+    obtain ⟨h1, h2, h3, h4, _⟩ := fire_fields h f i
+    exact ⟨h4, h1, h2, h3⟩
+
+theorem fire_reads (h : SCBase G) (f : FirePre G k p z ow) (j w : Nat) :
+    reads ((G.fire k p).gate j) w ↔ reads (G.gate j) w := by
+  obtain ⟨h1, h2, h3, _, _⟩ := fire_fields h f j
+  unfold reads; rw [h1, h2, h3]
+
+theorem fire_base (h : SCBase G) (f : FirePre G k p z ow) : SCBase (G.fire k p) := by
+  refine ⟨fire_gwf h f, fun i hi => ?_, fun i hi => ?_, fun w => ?_, fun w hw j hj => ?_⟩
+  · rw [fire_gsize] at hi
+    rw [(fire_fields h f i).2.2.2.1]; exact h.allLive i hi
+  · rw [fire_gsize] at hi
+    obtain ⟨h1, h2, h3, _, _⟩ := fire_fields h f i
+    rw [h1, h2, h3, fire_wsize]
+    have := h.ibound i hi
+    exact ⟨Nat.lt_succ_of_lt this.1, fun hh => Nat.lt_succ_of_lt (this.2 hh)⟩
+  · rw [fire_readers h f, fire_wire_all]; exact h.count w
+  · rw [fire_gsize] at hj
+    rw [fire_reads h f]
+    exact h.unread w hw j hj
+
+theorem fire_compute (h : SCBase G) (f : FirePre G k p z ow) (x : List Bool) :
+    (G.fire k p).compute x = G.compute x := by
+  have hobp := h.wf.obound p ((h.live_iff p).mpr f.hp)
+  rw [f.prod] at hobp
+  have hs := evalStore_gsol h.wf x
+  refine compute_eq_of_sols h.wf (fire_gwf h f) rfl x _ _ hs (fire_gsol h f x) (fun w hw => ?_)
+  rw [fireStore_get _ _ _ (by rw [hs.size]; exact hobp.2)]
+  have : ¬ w = ow := fun e => h.unread w hw k f.hk (e ▸ f.reads_k)
+  rw [if_neg this]
+
+theorem fire_evalStore (h : SCBase G) (f : FirePre G k p z ow) (x : List Bool) (w : Nat) :
+    ((G.fire k p).evalStore x).get w = if w = ow then false else (G.evalStore x).get w := by
+  have hobp := h.wf.obound p ((h.live_iff p).mpr f.hp)
+  rw [f.prod] at hobp
+  have hs := evalStore_gsol h.wf x
+  have hwf2 := fire_gwf h f
+  rw [sol_unique _ _ _ x _ _ hwf2.listWF (evalStore_gsol hwf2 x).sol (fire_gsol h f x).sol w]
+  exact fireStore_get _ _ _ (by rw [hs.size]; exact hobp.2)
+
 end Fire
+
+/-! ### the loop -/
+
+/-- Zero annotations on inputs of XOR gates are sound. -/
+def VZ (G : Graph) : Prop :=
+  ∀ x i, i < G.gates.size → (G.gate i).op = .xor →
+    (G.wval (G.gate i).a = .zero → (G.evalStore x).get (G.gate i).a = false) ∧
+    (G.wval (G.gate i).b = .zero → (G.evalStore x).get (G.gate i).b = false)
+
+/-- Input-gate pointers (`Wire.gates[0]`): genuine, or pointing at a gate whose
+output has fan-out counter 0, or belonging to a wire no gate `≥ k` reads. -/
+def Ptr (G : Graph) (k : Nat) : Prop :=
+  ∀ w q, (G.wire w).input = some q → q < G.gates.size ∧
+    ((G.gate q).o = w ∨ (G.wire (G.gate q).o).numOut = 0 ∨
+      ∀ j, k ≤ j → j < G.gates.size → ¬ reads (G.gate j) w)
+
+theorem fire_vz {G : Graph} {k p z ow : Nat} (h : SCBase G) (f : FirePre G k p z ow) (hv : VZ G) :
+    VZ (G.fire k p) := by
+  intro x i hi hx
+  rw [fire_gsize] at hi
+  obtain ⟨h1, h2, h3, _, _⟩ := fire_fields h f i
+  rw [h1] at hx
+  have e : ∀ w, (G.fire k p).wval w = G.wval w := fun w => by simp [wval, fire_wire_all]
+  rw [h2, h3, e, e, fire_evalStore h f, fire_evalStore h f]
+  have := hv x i hi hx
+  constructor
+  · intro hz; split
+    · rfl
+    · exact this.1 hz
+  · intro hz; split
+    · rfl
+    · exact this.2 hz
+
+theorem fire_ptr {G : Graph} {k p z ow m : Nat} (h : SCBase G) (f : FirePre G k p z ow)
+    (hm : m ≤ k + 1) (hp : Ptr G m) : Ptr (G.fire k p) (k + 1) := by
+  intro w q hin
+  rw [fire_wire_all] at hin
+  obtain ⟨hq, hcase⟩ := hp w q hin
+  rw [fire_gsize]
+  refine ⟨hq, ?_⟩
+  have hpk := f.p_lt h
+  rw [(fire_fields h f q).2.2.2.2, fire_wire_all]
+  by_cases hqk : q = k
+  · rw [if_pos hqk]
+    right; left
+    have : G.wire G.wires.size = {} := by simp [wire, Array.getD]; rfl
+    rw [this]
+  · rw [if_neg hqk]
+    by_cases hqp : q = p
+    · subst hqp
+      rw [if_pos rfl]
+      right; right
+      rcases hcase with hg | hz | hu
+      · intro j hj hjs
+        rw [fire_reads h f, ← hg, f.prod]
+        exact f.only_k h j hjs (by omega)
+      · rw [f.prod, f.one] at hz; omega
+      · intro j hj hjs
+        rw [fire_reads h f]
+        exact hu j (by omega) hjs
+    · rw [if_neg hqp]
+      rcases hcase with hg | hz | hu
+      · exact Or.inl hg
+      · exact Or.inr (Or.inl hz)
+      · right; right
+        intro j hj hjs
+        rw [fire_reads h f]
+        exact hu j (by omega) hjs
+
+/-- Result of one `if` of the loop body. -/
+theorem scTry_spec (G : Graph) (k z other : Nat) (h : SCBase G) (hv : VZ G) (hk : k < G.gates.size)
+    (hx : (G.gate k).op = .xor)
+    (role : ((G.gate k).a = z ∧ (G.gate k).b = other) ∨ ((G.gate k).b = z ∧ (G.gate k).a = other))
+    (hpf : ∀ q, (G.wire other).input = some q → q < G.gates.size ∧
+      ((G.gate q).o = other ∨ (G.wire (G.gate q).o).numOut = 0)) :
+    G.scTry k z other = G ∨
+    ∃ p, (G.wire other).input = some p ∧ FirePre G k p z other ∧ G.scTry k z other = G.fire k p := by
+  rw [scTry_eq]
+  by_cases hz : G.wval z = .zero
+  · rw [if_pos hz]
+    cases hin : (G.wire other).input with
+    | none => exact Or.inl rfl
+    | some p =>
+      simp only
+      by_cases hn : (G.wire (G.gate p).o).numOut = 1
+      · rw [if_pos hn]
+        right
+        obtain ⟨hp, hg⟩ := hpf p hin
+        have hgen : (G.gate p).o = other := by
+          rcases hg with hg | hg
+          · exact hg
+          · omega
+        refine ⟨p, rfl, ⟨hk, hp, hx, role, hgen, by rw [← hgen]; exact hn, fun x => ?_⟩, rfl⟩
+        rcases role with ⟨h1, _⟩ | ⟨h1, _⟩
+        · rw [← h1]; exact (hv x k hk hx).1 (by rw [h1]; exact hz)
+        · rw [← h1]; exact (hv x k hk hx).2 (by rw [h1]; exact hz)
+      · rw [if_neg hn]; exact Or.inl rfl
+  · rw [if_neg hz]; exact Or.inl rfl
 
 end Graph
 end Mpc
